@@ -273,6 +273,14 @@ ObserveEnd(o, e) ==
      \cup Flag("C20_EntriesNameFailedMessages",
                (r.top = "" /\ \A m \in M : Judged(o, m)) => (Rng(r.entries) = failed /\ Len(r.entries) = Cardinality(failed)
                                                               /\ \A m \in failed : r.msgs[m].ownmsg))
+     \* a message the client did not even start although nothing stood in its way (the connection is there, no earlier
+     \* message failed to render, no RSET / NOOP between the transactions was refused, it has recipients and needs no
+     \* extension the server lacks) was not affected by any reply: it carries no error
+     \cup Flag("C20_NoErrorWhenUnaffected",
+               (r.top = "" /\ ~o.srvGone) =>
+                  \A m \in M : (/\ m \notin o.started /\ Nr(o, m) > 0 /\ ~Enc8(o, m)
+                                /\ \A k \in 1..m : Rf(o, k) = "ok"
+                                /\ ~\E f \in o.fails : f.step \in {"rset", "noop", "other"}) => ~r.msgs[m].haserr)
      \cup Flag("C20_ErrIffAnyFailed", (r.top = "" /\ r.op = "Send") => (r.err <=> failed # {}))
      \* a message of the batch that was not delivered is a failed message: it carries an error (and so has its
      \* entry in the joined error) - unless the whole call failed before any message was tried (r.top)
